@@ -9,16 +9,18 @@ import PrologVerif.Proofs.VMScopedDefs
 namespace PrologVerif.Refine
 open PrologVerif PrologVerif.VM PrologVerif.DecompileCompile PrologVerif.Activation PrologVerif.VMScoped
 
+variable {fl : Bool}
+
 /-- the compiled clause `cl` is the clause with head `h` and body `b` (`true` for a fact) -/
-inductive CRel : Clause → Term → Term → Prop
+inductive CRel (fl : Bool) : Clause → Term → Term → Prop
   | rule {cl : Clause} {h b : Term} {hargs : RepList} {bops : List Op} {gs : List Rep} :
       HeadLayout h cl hargs → cl.code = headCode hargs {} ++ Op.enter :: (bops ++ [Op.exit]) →
       BodySem cl.vars bops gs → gs.map goalTerm = SLD.conjuncts b →
-      (∀ g ∈ gs, g = .atom "!" ∨ hornGoal (goalTerm g) = true) → CRel cl h b
+      (∀ g ∈ gs, g = .atom "!" ∨ stepGoal fl (goalTerm g) = true) → CRel fl cl h b
   | fact {cl : Clause} {h : Term} {hargs : RepList} :
-      HeadLayout h cl hargs → cl.code = headCode hargs {} ++ [Op.exit] → CRel cl h (.atom "true")
+      HeadLayout h cl hargs → cl.code = headCode hargs {} ++ [Op.exit] → CRel fl cl h (.atom "true")
 
-theorem CRel.name {cl : Clause} {h b : Term} (hr : CRel cl h b) :
+theorem CRel.name {cl : Clause} {h b : Term} (hr : CRel fl cl h b) :
     cl.name = functorName h ∧ cl.arity = (argList h).length ∧
     userPred (functorName h) (argList h).length = true := by
   cases hr with
@@ -26,8 +28,8 @@ theorem CRel.name {cl : Clause} {h b : Term} (hr : CRel cl h b) :
   | fact hl _ => exact ⟨hl.name, hl.arity, hl.user⟩
 
 /-- every clause of the fragment compiles to exactly one clause, related to its head and body -/
-theorem horn_crel (c : Term) (hc : clauseOK c = true) :
-    ∃ cl, compile (toRep c) = .ok [cl] ∧ CRel cl (SLD.headBody c).1 (SLD.headBody c).2 := by
+theorem horn_crel (c : Term) (hc : clauseS fl c = true) :
+    ∃ cl, compile (toRep c) = .ok [cl] ∧ CRel fl cl (SLD.headBody c).1 (SLD.headBody c).2 := by
   by_cases hr : ∃ h b, c = .app ":-" (.cons h (.cons b .nil))
   · obtain ⟨h, b, rfl⟩ := hr
     obtain ⟨cl, hargs, bops, gs, hcomp, hl, hcode, hsem, hgs, hg⟩ := horn_rule_layout h b hc
@@ -48,8 +50,8 @@ def clauseOf (c : Term) : Clause :=
   | .ok (c1 :: _) => c1
   | _ => ⟨"", 0, .atom "", [], []⟩
 
-theorem clauseOf_spec (c : Term) (hc : clauseOK c = true) :
-    compile (toRep c) = .ok [clauseOf c] ∧ CRel (clauseOf c) (SLD.headBody c).1 (SLD.headBody c).2 := by
+theorem clauseOf_spec (c : Term) (hc : clauseS fl c = true) :
+    compile (toRep c) = .ok [clauseOf c] ∧ CRel fl (clauseOf c) (SLD.headBody c).1 (SLD.headBody c).2 := by
   obtain ⟨cl, hcomp, hr⟩ := horn_crel c hc
   have : clauseOf c = cl := by simp [clauseOf, hcomp]
   rw [this]
@@ -63,9 +65,9 @@ theorem hornHead_functor {h : Term} (hh : hornHead h = true) :
     SLD.functor h = some (functorName h, argList h) := by
   cases h <;> simp_all [hornHead, SLD.functor, functorName, argList]
 
-theorem sameProc_horn (f : String) (n : Nat) (c : Term) (hc : clauseOK c = true) :
+theorem sameProc_horn (f : String) (n : Nat) (c : Term) (hc : clauseS fl c = true) :
     SLD.sameProc f n c = decide (headKey c = (f, n)) := by
-  simp only [clauseOK, Bool.and_eq_true] at hc
+  simp only [clauseS, Bool.and_eq_true] at hc
   simp only [SLD.sameProc, hornHead_functor hc.1.2, headKey]
   by_cases h1 : functorName (SLD.headBody c).1 = f <;> by_cases h2 : (argList (SLD.headBody c).1).length = n <;>
     simp [h1, h2]
@@ -107,7 +109,7 @@ def clausesOf (s : St) (f : String) (n : Nat) : List Clause :=
   | some p => p.clauses
   | none => []
 
-theorem assertStep_horn (s : St) (c : Term) (hc : clauseOK c = true) :
+theorem assertStep_horn (s : St) (c : Term) (hc : clauseS fl c = true) :
     assertStep s c =
       setProc s (clauseOf c).name (clauseOf c).arity
         { (lookupProc s (clauseOf c).name (clauseOf c).arity).getD { dynamic := true } with
@@ -115,14 +117,14 @@ theorem assertStep_horn (s : St) (c : Term) (hc : clauseOK c = true) :
   unfold assertStep
   rw [(clauseOf_spec c hc).1]
 
-theorem clauseOf_key (c : Term) (hc : clauseOK c = true) :
+theorem clauseOf_key (c : Term) (hc : clauseS fl c = true) :
     ((clauseOf c).name, (clauseOf c).arity) = headKey c := by
   obtain ⟨h1, h2, _⟩ := (clauseOf_spec c hc).2.name
   simp [headKey, h1, h2]
 
 /-- **the table after asserting a Horn program**: for every predicate indicator, whether it is
     defined and with which clauses, in terms of the program clauses with that head, in order -/
-theorem foldl_assert (f : String) (n : Nat) : ∀ (prog : List Term) (s : St), (∀ c ∈ prog, clauseOK c = true) →
+theorem foldl_assert (f : String) (n : Nat) : ∀ (prog : List Term) (s : St), (∀ c ∈ prog, clauseS fl c = true) →
     clausesOf (prog.foldl assertStep s) f n =
       clausesOf s f n ++ (prog.filter (fun c => decide (headKey c = (f, n)))).map clauseOf ∧
     ((lookupProc (prog.foldl assertStep s) f n).isSome =
@@ -157,7 +159,7 @@ theorem lookupProc_cancel (s : St) (c : Option Nat) (f : String) (n : Nat) :
 
 /-- a user predicate after loading: unknown iff no clause of the program has that head; otherwise
     its clauses are the compiled forms of those clauses, in order -/
-theorem lookup_user (prog : List Term) (hp : ∀ c ∈ prog, clauseOK c = true) (f : String) (n : Nat)
+theorem lookup_user (prog : List Term) (hp : ∀ c ∈ prog, clauseS fl c = true) (f : String) (n : Nat)
     (hu : userPred f n = true) :
     (lookupProc (initState prog none) f n = none ↔ prog.filter (fun c => decide (headKey c = (f, n))) = []) ∧
     (∀ p, lookupProc (initState prog none) f n = some p →
@@ -183,7 +185,7 @@ theorem lookup_user (prog : List Term) (hp : ∀ c ∈ prog, clauseOK c = true) 
     exact h1
 
 /-- predicates the program does not define keep their bootstrap definition -/
-theorem lookup_other (prog : List Term) (hp : ∀ c ∈ prog, clauseOK c = true) (f : String) (n : Nat)
+theorem lookup_other (prog : List Term) (hp : ∀ c ∈ prog, clauseS fl c = true) (f : String) (n : Nat)
     (hu : userPred f n = false) :
     lookupProc (initState prog none) f n = lookupProc bootState f n := by
   have hnil : prog.filter (fun c => decide (headKey c = (f, n))) = [] := by
@@ -201,7 +203,7 @@ theorem lookup_other (prog : List Term) (hp : ∀ c ∈ prog, clauseOK c = true)
     lookupProc_cancel] at h1 h2
   -- same clauses, same definedness: and the Proc record itself is untouched — go through the fold again
   clear h1 h2
-  have key : ∀ (prog : List Term) (s : St), (∀ c ∈ prog, clauseOK c = true) →
+  have key : ∀ (prog : List Term) (s : St), (∀ c ∈ prog, clauseS fl c = true) →
       prog.filter (fun c => decide (headKey c = (f, n))) = [] →
       lookupProc (prog.foldl assertStep s) f n = lookupProc s f n := by
     intro prog
@@ -222,7 +224,7 @@ theorem lookup_other (prog : List Term) (hp : ∀ c ∈ prog, clauseOK c = true)
 
 /-! ## the reference's clause list -/
 
-theorem disjuncts_horn (b : Term) (h : bodyOK b = true) : SLD.disjuncts b = [b] := by
+theorem disjuncts_horn (b : Term) (h : bodyS fl b = true) : SLD.disjuncts b = [b] := by
   unfold SLD.disjuncts
   split
   · rename_i c t e
@@ -230,9 +232,12 @@ theorem disjuncts_horn (b : Term) (h : bodyOK b = true) : SLD.disjuncts b = [b] 
     have : SLD.conjuncts (SLD.mk2 ";" (SLD.mk2 "->" c t) e) = [SLD.mk2 ";" (SLD.mk2 "->" c t) e] := by
       simp [SLD.conjuncts, SLD.wrapVar, SLD.mk2]
     simp only [SLD.mk2] at this
-    simp only [bodyOK, this, List.all_cons, List.all_nil, Bool.and_true] at h
-    rcases cutGoal_cases h with h | h
+    simp only [bodyS, this, List.all_cons, List.all_nil, Bool.and_true] at h
+    rcases goalS_cases h with h | h
     · simp [SLD.mk2] at h
+    rcases stepGoal_cases h with h | ⟨_, x, hx⟩
+    rotate_left
+    · simp [SLD.mk2] at hx
     rcases hornGoal_shape h with ⟨f, hf', _⟩ | ⟨a, b, hab⟩ | ⟨f, as, hfa, hu, _⟩
     · cases hf'
     · simp at hab
@@ -243,9 +248,12 @@ theorem disjuncts_horn (b : Term) (h : bodyOK b = true) : SLD.disjuncts b = [b] 
     exfalso
     have : SLD.conjuncts (.app ";" (.cons a (.cons b' .nil))) = [.app ";" (.cons a (.cons b' .nil))] := by
       simp [SLD.conjuncts, SLD.wrapVar]
-    simp only [bodyOK, this, List.all_cons, List.all_nil, Bool.and_true] at h
-    rcases cutGoal_cases h with h | h
+    simp only [bodyS, this, List.all_cons, List.all_nil, Bool.and_true] at h
+    rcases goalS_cases h with h | h
     · simp [SLD.mk2] at h
+    rcases stepGoal_cases h with h | ⟨_, x, hx⟩
+    rotate_left
+    · simp [SLD.mk2] at hx
     rcases hornGoal_shape h with ⟨f, hf', _⟩ | ⟨a, b, hab⟩ | ⟨f, as, hfa, hu, _⟩
     · cases hf'
     · simp at hab
@@ -257,8 +265,8 @@ theorem disjuncts_horn (b : Term) (h : bodyOK b = true) : SLD.disjuncts b = [b] 
 /-- the clause as the reference stores it: `Head :- Body` -/
 def ruleOf (c : Term) : Term := SLD.rule (SLD.headBody c).1 (SLD.headBody c).2
 
-theorem splitClause_horn (c : Term) (hc : clauseOK c = true) : SLD.splitClause c = [ruleOf c] := by
-  simp only [clauseOK, Bool.and_eq_true] at hc
+theorem splitClause_horn (c : Term) (hc : clauseS fl c = true) : SLD.splitClause c = [ruleOf c] := by
+  simp only [clauseS, Bool.and_eq_true] at hc
   simp [SLD.splitClause, disjuncts_horn _ hc.2, ruleOf]
 
 theorem headBody_rule (h b : Term) : SLD.headBody (SLD.rule h b) = (h, b) := rfl
@@ -286,7 +294,7 @@ theorem sameProc_library (f : String) (n : Nat) (hf : f ∉ reservedNames) :
   · rw [sameProc_of_functor (g := "append") (as := _) rfl, h2]; simp
 
 /-- the reference's clauses for a user predicate: the program clauses with that head, in order -/
-theorem sld_filter (prog : List Term) (hp : ∀ c ∈ prog, clauseOK c = true) (f : String) (n : Nat)
+theorem sld_filter (prog : List Term) (hp : ∀ c ∈ prog, clauseS fl c = true) (f : String) (n : Nat)
     (hf : f ∉ reservedNames) :
     (prog.flatMap SLD.splitClause ++ SLD.library).filter (SLD.sameProc f n) =
       (prog.filter (fun c => decide (headKey c = (f, n)))).map ruleOf := by
